@@ -198,6 +198,13 @@ func (r *Registry) GetNoCacheOutputHash(ctx context.Context, target *model.Targe
 	}, nil
 }
 
+// OutputsAvailable reports whether the outputs of the target were already written or loaded in this build
+func (r *Registry) OutputsAvailable(target *model.Target) bool {
+	r.targetMutexMap.Lock(target.Label.String())
+	defer r.targetMutexMap.Unlock(target.Label.String())
+	return target.OutputsLoaded
+}
+
 // LoadOutputs loads the outputs for a target once using the cached targetResult
 func (r *Registry) LoadOutputs(
 	ctx context.Context,
